@@ -117,6 +117,11 @@ class PersistentRemoteWorker(PersistentWorker, RemoteWorker):
                 assert len(result) == 2
                 logger.info(f'Final result received')
                 self._result = result
+                if not last_partial_result_signalled:
+                    # the final result came without the end-of-results message (the child has been killed by the server),
+                    # a consumer blocked on the results pipe has to be told that nothing more is coming
+                    self._results_pipe.child_end.put((counter, False, None, self.id))
+                    last_partial_result_signalled = True
                 try:
                     self._user_state = recv_msg(self._socket, comment='data: user state')
                     logger.debug('User state received')
